@@ -18,7 +18,10 @@ fn fn_choice(i: usize, choice: usize) -> (Vec<HFn>, bool) {
         2 => (vec![f("f", true, Recv::Mut, 0), f("g", false, Recv::Const, 1)], false),
         3 => (vec![f("g", true, Recv::None, 0), f("f", true, Recv::Mut, 1)], true),
         // a name no other type uses: accepted whatever the bases expose
-        _ => (vec![f(&format!("k{i}"), true, Recv::Const, 0), f("g", i % 2 == 0, Recv::Mut, 1)], i % 2 == 1),
+        4 => (vec![f(&format!("k{i}"), true, Recv::Const, 0), f("g", i % 2 == 0, Recv::Mut, 1)], i % 2 == 1),
+        // a public function named like the virtual function a type deriving from this one may
+        // declare (publicly or privately)
+        _ => (vec![f(&format!("v{}", i + 1), true, Recv::Const, 0)], i % 2 == 0),
     }
 }
 
@@ -26,8 +29,16 @@ fn cases(tier: &str) -> Vec<Hier> {
     let mut out = vec![];
     for n in 1..=3usize {
         for h in shapes(n) {
-            for idx in 0..5usize.pow(n as u32) {
-                let d = util::decode(idx, &vec![5; n]);
+            // quick: four of the six assignments per position (every assignment occurs at some
+            // position, every pair of adjacent positions sees clashing and clash-free names)
+            let menu: Vec<Vec<usize>> = if tier == "thorough" || n < 3 {
+                vec![(0..6).collect(); n]
+            } else {
+                vec![vec![0, 1, 3, 5], vec![0, 1, 2, 4], vec![0, 2, 4, 5]]
+            };
+            let radices: Vec<usize> = menu.iter().map(|m| m.len()).collect();
+            for idx in 0..util::product(&radices) {
+                let d: Vec<usize> = util::decode(idx, &radices).iter().enumerate().map(|(i, x)| menu[i][*x]).collect();
                 let mut h2 = h.clone();
                 for i in 0..n {
                     let (fns, vpub) = fn_choice(i, d[i]);
@@ -52,7 +63,7 @@ fn cases(tier: &str) -> Vec<Hier> {
         }
         // every 4-type shape sees one assignment in which the two oldest types expose the same
         // name (a clash that an intermediate type has to resolve before the youngest inherits it)
-        let pats: Vec<[usize; 4]> = if diamond || chain || tier == "thorough" { vec![[1, 1, 1, 0], [3, 2, 1, 0], [4, 4, 4, 4], [1, 3, 0, 4], [1, 1, 0, 0], [0, 0, 0, 0], [1, 0, 0, 0], [4, 0, 0, 1], [0, 4, 0, 0]] } else { vec![[1, 1, 0, 0], [0, 0, 0, 0]] };
+        let pats: Vec<[usize; 4]> = if diamond || chain || tier == "thorough" { vec![[1, 1, 1, 0], [3, 2, 1, 0], [4, 4, 4, 4], [1, 3, 0, 4], [1, 1, 0, 0], [0, 0, 0, 0], [1, 0, 0, 0], [4, 0, 0, 1], [0, 4, 0, 0], [5, 5, 5, 0]] } else { vec![[1, 1, 0, 0]] };
         for pat in pats {
             let mut h2 = h.clone();
             for i in 0..4 {
